@@ -236,12 +236,12 @@ pub fn gen_greedy(r: &mut Rng, feat: u32) -> (Universe, Prob) {
 /// packages. First-ranked candidates usually clash somewhere below, so the
 /// solver has to learn and backjump, yet most instances stay satisfiable.
 pub fn gen_conflict(r: &mut Rng, feat: u32) -> (Universe, Prob) {
-    gen_conflict_with(r, feat, false)
+    gen_conflict_with(r, feat, false, false)
 }
 
 /// `empties`: version sets may match nothing (a requirement nobody can satisfy: its parent is asserted false
 /// by a clause without watches), packages may be missing altogether, and hints are more frequent.
-pub fn gen_conflict_with(r: &mut Rng, feat: u32, empties: bool) -> (Universe, Prob) {
+pub fn gen_conflict_with(r: &mut Rng, feat: u32, empties: bool, multi_cons: bool) -> (Universe, Prob) {
     let n_names = r.range(4, 7) as u32;
     let mut u = Universe::default();
     for n in 0..n_names {
@@ -317,6 +317,16 @@ pub fn gen_conflict_with(r: &mut Rng, feat: u32, empties: bool) -> (Universe, Pr
                 n = (n + 1) % n_names;
             }
             cons.push(3 * n + 1 + r.below(2) as u32);
+        }
+        if multi_cons && feat & F_CONSTRAINS != 0 {
+            // "conflictc": several constraints per solvable, on distinct packages (a candidate with two or more
+            // Constrains edges in one conflict report)
+            cons.clear();
+            let mut names: Vec<u32> = (0..n_names).filter(|&n| n != me).collect();
+            r.shuffle(&mut names);
+            for &n in names.iter().take(r.range(2, 3) as usize) {
+                cons.push(3 * n + 1 + r.below(2) as u32);
+            }
         }
         u.sols[s].deps = if feat & F_UNKNOWN != 0 && r.chance(1, 30) { None } else { Some(Known { reqs, cons }) };
     }
@@ -600,6 +610,78 @@ fn gen_softrej_template(r: &mut Rng, feat: u32) -> (Universe, Prob) {
     (u, Prob { reqs, cons: vec![], soft })
 }
 
+/// "An assertion made above the root level must survive a backjump": a first-choice candidate that can
+/// never be installed (excluded / Unknown dependencies / a requirement without candidates) and is already
+/// encoded through a hint is discovered at level >= 2; a learning conflict next to it (a sibling that
+/// requires two different versions of one package) backjumps below that level; afterwards the sibling's
+/// fallback forces exactly the impossible candidate, with nothing new left to encode.
+pub fn gen_lostassert(r: &mut Rng, feat: u32) -> (Universe, Prob) {
+    let mut u = Universe::default();
+    let add_pkg = |u: &mut Universe, n: u32| -> (u32, Vec<u32>) {
+        let name = u.pkgs.len() as u32;
+        let mut p = Pkg::default();
+        for i in 0..n {
+            let id = u.sols.len() as u32;
+            u.sols.push(Sol { name, rank: i, deps: Some(Known { reqs: vec![], cons: vec![] }) });
+            p.cands.push(id);
+        }
+        let c = p.cands.clone();
+        u.pkgs.push(p);
+        (name, c)
+    };
+    let add_vs = |u: &mut Universe, name: u32, m: Vec<u32>| -> u32 {
+        u.vss.push(Vs { name, matching: m });
+        u.vss.len() as u32 - 1
+    };
+    let hints = feat & F_HINTS != 0;
+    let (an, ac) = add_pkg(&mut u, 2);
+    let (qn, qc) = add_pkg(&mut u, r.range(2, 3) as u32);
+    let (bn, bc) = add_pkg(&mut u, 2);
+    let (cn, cc) = add_pkg(&mut u, 2);
+    let (mn, _mc) = add_pkg(&mut u, 1);
+    let vs_a = add_vs(&mut u, an, ac.clone());
+    let vs_q = add_vs(&mut u, qn, qc.clone());
+    let vs_q_hi = add_vs(&mut u, qn, vec![qc[0]]);
+    let vs_b = add_vs(&mut u, bn, bc.clone());
+    let vs_c0 = add_vs(&mut u, cn, vec![cc[0]]);
+    let vs_c1 = add_vs(&mut u, cn, vec![cc[1]]);
+    let vs_none = add_vs(&mut u, mn, vec![]);
+    // the impossible first choice of q
+    match r.below(3) {
+        0 => u.pkgs[qn as usize].excluded.push(qc[0]),
+        1 if feat & F_UNKNOWN != 0 => u.sols[qc[0] as usize].deps = None,
+        _ => u.sols[qc[0] as usize].deps = Some(Known { reqs: vec![Req::Single(vs_none)], cons: vec![] }),
+    }
+    // a_hi requires q and b (either order); a_lo is a dead end or a way out
+    let mut areqs = vec![Req::Single(vs_q), Req::Single(vs_b)];
+    if r.chance(1, 2) {
+        areqs.reverse();
+    }
+    u.sols[ac[0] as usize].deps = Some(Known { reqs: areqs, cons: vec![] });
+    u.sols[ac[1] as usize].deps =
+        Some(Known { reqs: if r.chance(1, 2) { vec![Req::Single(vs_none)] } else { vec![] }, cons: vec![] });
+    // b_hi cannot be installed (needs two versions of c); b_lo forces q's first choice
+    u.sols[bc[0] as usize].deps = Some(Known { reqs: vec![Req::Single(vs_c0), Req::Single(vs_c1)], cons: vec![] });
+    u.sols[bc[1] as usize].deps = Some(Known { reqs: vec![], cons: vec![vs_q_hi] });
+    if hints {
+        u.pkgs[qn as usize].hint = Hint::All;
+        u.pkgs[bn as usize].hint = Hint::All;
+        if r.chance(1, 2) {
+            u.pkgs[cn as usize].hint = Hint::All;
+        }
+        if r.chance(1, 4) {
+            u.pkgs[an as usize].hint = Hint::All;
+        }
+    }
+    let mut reqs = vec![Req::Single(vs_a)];
+    if r.chance(1, 3) {
+        let (xn, xc) = add_pkg(&mut u, r.range(1, 2) as u32);
+        let vs_x = add_vs(&mut u, xn, xc);
+        reqs.insert(r.below(2) as usize, Req::Single(vs_x));
+    }
+    (u, Prob { reqs, cons: vec![], soft: vec![] })
+}
+
 /// Long soft-requirement lists in which several consecutive entries are rejected early (Unknown
 /// dependencies, exclusions, requirements without candidates), over small cyclic universes: exercises
 /// the bookkeeping between successive run_sat invocations (decisions assigned false but not yet
@@ -743,7 +825,9 @@ pub fn gen_case(id: u64, seed: u64, class: &str, feat: u32) -> Case {
         "dense" => gen_universe(&mut r, feat, &DENSE),
         "greedy" => gen_greedy(&mut r, feat),
         "conflict" => gen_conflict(&mut r, feat),
-        "conflictx" => gen_conflict_with(&mut r, feat, true),
+        "conflictx" => gen_conflict_with(&mut r, feat, true, false),
+        "conflictc" => gen_conflict_with(&mut r, feat, false, true),
+        "lostassert" => gen_lostassert(&mut r, feat),
         "fanout" => gen_fanout(&mut r, feat),
         "softdeep" => gen_softdeep(&mut r, feat),
         "softrej" => gen_softrej(&mut r, feat),
